@@ -110,8 +110,6 @@ def check(pid, tier='quick', seed=0, shared=None, write_evidence=True, quiet=Fal
     elif not inconclusive:
         nthreads = max(2, 16 // max(1, len(targets)))
         extra = []
-        if tier == 'thorough':
-            extra = ['--rlimit', '60']
         def go(t):
             try:
                 return run_world(t[0], t[1], threads=nthreads, verus_extra=extra)
@@ -177,6 +175,20 @@ def check(pid, tier='quick', seed=0, shared=None, write_evidence=True, quiet=Fal
                 reach_failed.add((f['fn_obj']['mod'], f['fn_obj']['name']))
         for rl in cr['rlimit']:
             inconclusive.append(f'{wname}: rlimit in vacuity unit: {rl["message"]}')
+        # lemma twins: each `<lemma>__reach` must fail
+        reach_unit_bytes = open(os.path.join(r['outdir'], 'unit_reach.rs'), 'rb').read()
+        failed_lemma_twins = set()
+        for f in cr['failures']:
+            if f['fn_obj'] is None:
+                pos = max([a for (a, b, prim, lab) in f['spans'] if prim] or [a for (a, b, prim, lab) in f['spans']])
+                back = reach_unit_bytes[max(0, pos - 6000):pos].decode('utf-8', 'ignore')
+                names = re.findall(r'proof fn\s+(\w+)__reach', back)
+                if names:
+                    failed_lemma_twins.add(names[-1])
+        for lt in meta.get('lemma_twins', []):
+            twins += 1
+            if lt not in failed_lemma_twins:
+                inconclusive.append(f'{wname}: vacuity guard red: lemma {lt} has contradictory hypotheses (its `ensures false` twin verifies)')
         for fn in meta['reach_fns']:
             if fn['variant'] != 'reach':
                 continue
@@ -190,7 +202,7 @@ def check(pid, tier='quick', seed=0, shared=None, write_evidence=True, quiet=Fal
         for f in cm['failures']:
             if f['fn_obj'] is None:
                 # a labelled lemma?  (its verdict comes from the lemma obligations above)
-                pos = min(a for (a, b, prim, lab) in f['spans'])
+                pos = max([a for (a, b, prim, lab) in f['spans'] if prim] or [a for (a, b, prim, lab) in f['spans']])
                 back = unit_bytes[max(0, pos - 4000):pos + 200].decode('utf-8', 'ignore')
                 names = re.findall(r'proof fn\s+(\w+)', back)
                 if names and names[-1] in lemma_names:
@@ -311,6 +323,9 @@ def check(pid, tier='quick', seed=0, shared=None, write_evidence=True, quiet=Fal
             path, found = make_replay(pid, v, seed)
             tail = '' if found else ' no-failing-input-found'
             lines.append(f'VIOLATION property={pid} replay={path} obligation={v["label"]}{tail}')
+    thorough = {}
+    if tier == 'thorough' and rc == 0 and shared is None:
+        thorough = thorough_extras(pid, targets, seed)
     n_ob = len(obligations)
     n_dis = sum(1 for o in obligations if o['discharged'])
     evidence = {
@@ -328,6 +343,7 @@ def check(pid, tier='quick', seed=0, shared=None, write_evidence=True, quiet=Fal
             'back_end': 'Verus 0.2026.09.13 / Z3',
             'worlds': [t[0] + ('+' + '+'.join(t[1]) if t[1] else '') for t in targets],
             'known_findings_hit': sorted(seen),
+            'thorough': thorough,
             'inconclusive': inconclusive,
         },
         'assumptions': ASSUMPTIONS + ['repo function NOT verified (contract assumed): ' + u for u in sorted(unverified)],
@@ -355,6 +371,50 @@ ASSUMPTIONS = [
     'environment (bank, IBC, token factory, ibc-hooks) as listed in DESIGN.md section 4',
     'machine integers are NOT treated as mathematical: every exec +,-,* carries an overflow VC',
 ]
+
+
+def thorough_extras(pid, targets, seed):
+    """(a) proof stability: the same units under another Z3 seed and a doubled resource limit;
+    (b) kill matrix: every seeded change under /verif/seeded that targets this property is applied to a
+    scratch copy of /repo and must make this check report a violation.  Neither changes the verdict on the
+    current tree; both are reported in the evidence."""
+    import shutil, subprocess, tempfile
+    out = {'stability': [], 'kill_matrix': []}
+    for t in targets:
+        try:
+            r = run_world(t[0], t[1], threads=8, verus_extra=['--smt-option', f'smt.random_seed={seed + 7}', '--rlimit', '60'])
+            fails = [f.get('fn') for f in r['cm']['failures']] + [x['message'] for x in r['cm']['rlimit']]
+            out['stability'].append({'world': t[0] + ('+' + '+'.join(t[1]) if t[1] else ''), 'z3_seed': seed + 7,
+                                     'same_result': not fails and not r['cm']['compile_errors'], 'differences': fails[:5]})
+        except Inconclusive as e:
+            out['stability'].append({'world': t[0], 'error': str(e)})
+    seeded = os.path.join(VERIF, 'seeded')
+    ids = sorted(d for d in (os.listdir(seeded) if os.path.isdir(seeded) else []) if os.path.exists(os.path.join(seeded, d, 'meta.json')))
+    mine = []
+    for d in ids:
+        meta = json.load(open(os.path.join(seeded, d, 'meta.json')))
+        if pid in (meta.get('caught_by') or []) or meta.get('property') == pid:
+            mine.append((d, meta))
+    if mine:
+        tmp = tempfile.mkdtemp(prefix='verif-kill-', dir='/tmp')
+        try:
+            for d, meta in mine:
+                cp = os.path.join(tmp, 'repo')
+                shutil.rmtree(cp, ignore_errors=True)
+                subprocess.run(['rsync', '-a', '--exclude', 'target', '--exclude', '.git', REPO + '/', cp + '/'], check=True)
+                a = subprocess.run(['patch', '-p1', '-s', '-i', os.path.join(seeded, d, 'patch.diff')], cwd=cp, capture_output=True, text=True)
+                if a.returncode != 0:
+                    out['kill_matrix'].append({'seed': d, 'result': 'patch does not apply to the current tree'})
+                    continue
+                env = dict(os.environ, VERIF_REPO=cp, VERIF_WORK=os.path.join(tmp, 'work'), VERIF_EVIDENCE=os.path.join(tmp, 'ev'),
+                           VERIF_REPLAYS=os.path.join(tmp, 'replays'), VERIF_TIER='quick')
+                c = subprocess.run([sys.executable, '-m', 'vf.check', pid], cwd=VERIF, env=env, capture_output=True, text=True)
+                out['kill_matrix'].append({'seed': d, 'exit': c.returncode,
+                                           'result': {0: 'SURVIVED', 1: 'killed', 2: 'inconclusive'}.get(c.returncode, 'error'),
+                                           'lines': [l[:200] for l in c.stdout.split('\n') if l.startswith(('VIOLATION', 'INCONCLUSIVE'))][:3]})
+        finally:
+            shutil.rmtree(tmp, ignore_errors=True)
+    return out
 
 
 def check_all(pids, tier='quick', seed=0):
